@@ -436,7 +436,13 @@ func (s *stmtGen) where(ti int, args *[]Val) string {
 	case form == "nonpk":
 		for j, c := range t.Cols {
 			if !t.isPK(c.Name) && (strings.HasPrefix(c.Type, "int") || strings.HasPrefix(c.Type, "varchar")) {
-				for _, r := range s.live[ti] {
+				var keys []string
+				for k := range s.live[ti] {
+					keys = append(keys, k)
+				}
+				sortStrings(keys) // map order must not leak into the plan
+				for _, k := range keys {
+					r := s.live[ti][k]
 					if r[j].K != "n" {
 						return fmt.Sprintf("%s = %s", c.Name, s.place(r[j], args))
 					}
